@@ -166,6 +166,7 @@ Definition items (m : move) (c : cconn) : list coutev :=
   match m with
   | MNote o => if quietb o then [o] else []
   | MWlWrite => match cc_outQ c with o :: _ => [o] | [] => [] end
+  | MWlReset id => [CORst id c_InternalError]
   | MSend id wr =>
     match cl_pend_get (cc_pending c) id with
     | Some pb => if wr then cl_write_data (cc_maxFrame c) id (cs_chunk c pb) (cs_end c pb) else []
